@@ -51,7 +51,7 @@ class Ctx:
     def release(self, cfg=None):
         k = config_name(cfg)
         self._an.pop(k, None)
-        for s in ("O0", "ship", "shipinl", "raw"):
+        for s in ("O0", "O0c", "ship", "shipinl", "raw"):
             self._prog.pop((k, s), None)
             self.ws.drop(cfg, s)
 
@@ -89,9 +89,15 @@ class Ctx:
                 raise AnalysisBroken("fixture %s does not compile: %s" % (name, p.stderr[-300:]))
             # same normalisation as the library units (the fixtures include the repository's headers)
             from .build import IRSPEC
-            p = subprocess.run([IRSPEC, base + ".raw.ll", base + ".spec.ll"], capture_output=True, text=True)
-            if p.returncode:
-                raise AnalysisBroken("irspec failed on fixture %s: %s" % (name, p.stderr[-200:]))
+            src_ll = base + ".raw.ll"
+            for rnd in range(3):
+                p = subprocess.run([IRSPEC, src_ll, base + ".spec.ll"], capture_output=True, text=True)
+                if p.returncode:
+                    raise AnalysisBroken("irspec failed on fixture %s: %s" % (name, p.stderr[-200:]))
+                if not any(l.startswith(("inline ", "thread ")) for l in p.stderr.splitlines()) or rnd == 2:
+                    break
+                os.replace(base + ".spec.ll", base + ".spec0.ll")
+                src_ll = base + ".spec0.ll"
             p = subprocess.run([OPT, "-passes=mem2reg", "-S", base + ".spec.ll", "-o", base + ".ll"], capture_output=True, text=True)
         else:
             cmd = [CLANG, "-std=c99"] + inc + list(flags) + ["-O3", "-g", "-fno-discard-value-names", "-S", "-emit-llvm", src, "-o", base + ".ll", "-w"]
